@@ -89,6 +89,8 @@ mod sendable;
 mod stage;
 mod stager;
 mod stages;
+#[cfg(brood_verif)]
+pub mod verif;
 
 pub(crate) use stages::Stages;
 
